@@ -1339,7 +1339,7 @@ impl Model {
                     // its full topic (the one the application's alias stands for on THIS connection), no alias
                     if let (Call::Send { pkt: app @ Pkt::Publish { topic: at, props: aps, qos: aq, retain: ar, payload: apl, ver: Ver::V5, .. }, .. }, Pkt::Publish { topic: st, props: sps, qos: sq, retain: sr, payload: spl, .. }) = (call, p) {
                         if !self.unsynced {
-                            s.hit("S11-stored-copy-is-the-accepted-packet");
+                            s.hit("S12-stored-copy-is-the-accepted-packet");
                             let alias = aps.iter().find_map(|x| if let (P_TA, PVal::U16(a)) = (x.id, &x.val) { Some(*a) } else { None });
                             let intended: Option<Vec<u8>> = if !at.is_empty() { Some(at.clone()) } else { alias.and_then(|a| self.app_alias_before.get(&a).cloned()) };
                             let want_props: Vec<Prop> = aps.iter().filter(|x| x.id != P_TA).cloned().collect();
@@ -1351,13 +1351,13 @@ impl Model {
                                 }
                                 Some(t) => {
                                     if *st != t {
-                                        s.fail("C06", "S11-stored-copy-is-the-accepted-packet", "what=topic".into(), format!("send({}) stored as {}: the application meant topic {:?}", app.short(), p.short(), String::from_utf8_lossy(&t)));
+                                        s.fail("C06", "S12-stored-copy-is-the-accepted-packet", "what=topic".into(), format!("send({}) stored as {}: the application meant topic {:?}", app.short(), p.short(), String::from_utf8_lossy(&t)));
                                         s.fail("C13", "AL4-stored-copy-full-topic-no-alias", "where=store;why=wrong-topic".into(), format!("send({}) stored as {}: the application meant topic {:?}", app.short(), p.short(), String::from_utf8_lossy(&t)));
                                     }
                                 }
                             }
                             if sq != aq || sr != ar || spl != apl || got_props != want_props {
-                                s.fail("C06", "S11-stored-copy-is-the-accepted-packet", "what=contents".into(), format!("send({}) stored as {}: QoS, RETAIN, payload or properties differ", app.short(), p.short()));
+                                s.fail("C06", "S12-stored-copy-is-the-accepted-packet", "what=contents".into(), format!("send({}) stored as {}: QoS, RETAIN, payload or properties differ", app.short(), p.short()));
                             }
                         }
                     }
